@@ -408,6 +408,114 @@ fn run_threshold_sweep(cx: &mut CaseCx, case: &Value) {
 }
 
 
+
+/// the NUMBER of matching reports, in every relation to the threshold: n = t .. 70, multiples and squares of t,
+/// and the neighbourhoods of 128, 256, 512 - all n reports handed to the recovery (and an n-1 of n selection)
+fn run_report_counts(cx: &mut CaseCx, case: &Value) {
+  let t = case["t"].as_u64().unwrap() as usize;
+  let nmax = case["nmax"].as_u64().unwrap() as usize;
+  let cfg = json!({"t": t, "m": 1, "e": 2, "auxoff": 1, "src": "local", "wire": false});
+  let g = match build_group(cx, "C01", &cfg, nmax) {
+    Some(g) => g,
+    None => return,
+  };
+  let mut ns: Vec<usize> = (t..=70.min(nmax)).collect();
+  for k in [2usize, 3, 4, 8, 16] {
+    ns.extend([k * t - 1, k * t, k * t + 1]);
+  }
+  ns.extend([t * t, t * t + 1, 127, 128, 129, 255, 256, 257, 256 + t - 1, 256 + t, 511, 512, 513, 512 + t - 1]);
+  ns.retain(|&n| n >= t && n <= nmax);
+  ns.sort();
+  ns.dedup();
+  for n in ns {
+    // the first n reports, the last n reports, and the first n with one dropped from the middle
+    let sels: Vec<(&str, Vec<usize>)> = vec![("first n", (0..n).collect()), ("last n, reversed", (nmax - n..nmax).rev().collect()), ("first n+1 without the middle one", (0..(n + 1).min(nmax)).filter(|&i| i != n / 2 || n + 1 > nmax).collect())];
+    for (how, sel) in sels {
+      let shares: Vec<sta_rs::Share> = sel.iter().map(|&i| g.msgs[i].share.clone()).collect();
+      cx.eval();
+      cx.count("states", 1);
+      cx.count("transitions", 1);
+      cx.nontrivial(fnv_str(&format!("{}|{}|{}", t, n, how)));
+      match recover_msg(&shares) {
+        Ok(Ok(m)) => {
+          cx.count("ok_recoveries", 1);
+          // every report of the selection opens to its own client's inputs (spot: first, last, middle)
+          for &i in [sel[0], sel[sel.len() - 1], sel[sel.len() / 2]].iter() {
+            if !matches!(open_report(&g.msgs[i], &m, &g.epoch), Ok((mm, aa)) if mm == g.meas && aa == g.auxs[i]) {
+              cx.viol("C01/report-count/decrypt-mismatch", format!("t={}, {} reports ({}): report {} does not open to its client's inputs", t, sel.len(), how, i), json!({"t": t, "reports": sel.len(), "selection": how, "report": i}));
+              return;
+            }
+          }
+        }
+        other => {
+          cx.viol("C01/report-count/recover-failed", format!("threshold {}: {} matching reports ({}) do not recover: {:?}", t, sel.len(), how, other.map(|r| r.map(|_| ()))), json!({"t": t, "reports": sel.len(), "selection": how}));
+          return;
+        }
+      }
+    }
+  }
+  cx.outcome(format!("t={}", t));
+}
+
+/// magnitudes of the payload: measurements and associated data at and around 2^16 and 2^20 bytes (thorough 2^24)
+fn run_large_payloads(cx: &mut CaseCx, case: &Value) {
+  let mlen = case["mlen"].as_u64().unwrap() as usize;
+  let alen = case["alen"].as_u64().unwrap() as usize;
+  let t = 2u32;
+  let meas = prbytes(0x1A6E + mlen as u64, mlen);
+  let epoch = b"epoch".to_vec();
+  let rnd = local_randomness(&meas, &epoch, t);
+  let mut msgs = vec![];
+  let mut auxs = vec![];
+  for i in 0..3u32 {
+    getrandom::verif::set_group(i + 1);
+    let aux = if i == 1 { None } else { Some(prbytes(0xA0A0 + i as u64 + alen as u64, alen + i as usize)) };
+    match gen_report(&meas, &epoch, t, &rnd, &aux) {
+      Ok(m) => {
+        // through the wire form
+        let b = m.to_bytes();
+        match guard(|| Message::from_bytes(&b)) {
+          Ok(Some(m2)) => msgs.push(m2),
+          other => {
+            cx.viol("C01/wire-roundtrip", format!("a report with a {}-byte measurement and {}-byte associated data does not decode: {:?}", mlen, alen, other.map(|o| o.is_some())), json!({"measurement_len": mlen, "aux_len": alen}));
+            return;
+          }
+        }
+        auxs.push(aux);
+      }
+      Err(e) => {
+        cx.viol("C01/generate-failed", e, json!({"measurement_len": mlen, "aux_len": alen}));
+        return;
+      }
+    }
+  }
+  cx.nontrivial(fnv_str(&case.to_string()));
+  for sel in [vec![0usize, 1], vec![2, 1, 0], vec![1, 2]] {
+    let shares: Vec<sta_rs::Share> = sel.iter().map(|&i| msgs[i].share.clone()).collect();
+    cx.eval();
+    cx.count("states", 1);
+    cx.count("transitions", 1);
+    match recover_msg(&shares) {
+      Ok(Ok(m)) => {
+        for i in 0..3 {
+          match open_report(&msgs[i], &m, &epoch) {
+            Ok((mm, aa)) if mm == meas && aa == auxs[i] => cx.count("large_opened", 1),
+            other => {
+              cx.viol("C01/large-payload/decrypt-mismatch", format!("measurement of {} bytes, associated data of {} bytes: report {} does not open to its client's inputs ({})", mlen, auxs[i].as_ref().map(|a| a.len()).unwrap_or(0), i, match other { Ok((mm, aa)) => format!("measurement {} bytes, aux {:?} bytes", mm.len(), aa.map(|a| a.len())), Err(e) => e }), json!({"measurement_len": mlen, "aux_len": alen, "report": i}));
+              return;
+            }
+          }
+        }
+      }
+      other => {
+        cx.viol("C01/large-payload/recover-failed", format!("{:?}", other.map(|r| r.map(|_| ()))), json!({"measurement_len": mlen, "aux_len": alen}));
+        return;
+      }
+    }
+  }
+  cx.outcome("large payloads open");
+}
+
 /// boundary search on the tag: measurements whose tag has a 0x00 / 0xff first or last byte, aggregated by the
 /// reference aggregation server (the "aggregation side" of the repository) - they must be revealed like any other
 fn run_boundary_tags(cx: &mut CaseCx, case: &Value) {
@@ -589,6 +697,42 @@ pub fn spec() -> PropSpec {
         },
         run: run_threshold_sweep,
         min_counts: &[("ok_recoveries", 600)],
+      },
+      Check {
+        name: "report-counts",
+        rule: "the number n of matching reports in every relation to the threshold (t in {1,2,3,5,7}; thorough + 16, 33): EVERY n in t..=70, n = k*t-1, k*t, k*t+1 for k in {2,3,4,8,16}, t^2, t^2+1 and 127..129, 255..257, 256+t-1, 256+t, 511..513, 512+t-1: the first n, the last n reversed, n+1 without the middle one - recover, and the first / middle / last report of the selection open to their own clients' inputs",
+        gen: |tier| {
+          let mut ts = vec![1u64, 2, 3, 5, 7];
+          if tier.thorough() {
+            ts.extend([16, 33]);
+          }
+          ts.into_iter().map(|t| json!({"t": t, "nmax": 530})).collect()
+        },
+        run: run_report_counts,
+        min_counts: &[("ok_recoveries", 1000)],
+      },
+      Check {
+        name: "large-payloads",
+        rule: "measurement / associated-data lengths (0|40|65535|65536|65537, 65535|65536|65537|2^20+1) (thorough: + 2^24-1, 2^24, 2^24+1 bytes of associated data): 3 reports (one without associated data, lengths alen, alen+2) through the wire form, 3 selections: every report opens to exactly its client's inputs",
+        gen: |tier| {
+          let mut v = vec![];
+          for mlen in [0u64, 40, 65535, 65536, 65537] {
+            for alen in [65535u64, 65536, 65537, (1 << 20) + 1] {
+              if mlen >= 65535 && alen > 65537 {
+                continue;
+              }
+              v.push(json!({"mlen": mlen, "alen": alen}));
+            }
+          }
+          if tier.thorough() {
+            for alen in [(1u64 << 24) - 1, 1 << 24, (1 << 24) + 1] {
+              v.push(json!({"mlen": 40, "alen": alen}));
+            }
+          }
+          v
+        },
+        run: run_large_payloads,
+        min_counts: &[("large_opened", 100)],
       },
       Check {
         name: "boundary-tags",
